@@ -268,8 +268,11 @@ class ProcessManager:
                 elif isinstance(action, ShutdownAction):
                     logger.debug("Process manager closed, killing workers.")
                     for worker in self.workers:
-                        if worker.pid:
-                            os.kill(worker.pid, signal.SIGINT)
+                        # A worker that already exited has nothing to receive
+                        # the signal, its pid may even be gone by now.
+                        if worker.pid and worker.is_alive():
+                            with suppress(ProcessLookupError):
+                                os.kill(worker.pid, signal.SIGINT)
                     return None
 
             for worker_num, worker in enumerate(self.workers):
